@@ -264,3 +264,5 @@ def run(F, S, R, tier):
                 else:
                     R.bad(k, "Snapshot::new argument %d does not derive from %s" % (i, w), [c[0].where()])
     R.guard("prov/new-snapshot", snap)
+    import common as _common
+    _common.effects(R, F, ['main-chain', 'verdicts'])
